@@ -9,7 +9,7 @@ LEVEL = "exploration"
 FLAVORS = ["tsan"]
 TECHNIQUE = "runtime monitoring: ThreadSanitizer build of the real FsDropInService (inotify watcher thread) + main-loop tick thread + file-operation thread; convergence judged after logical quiescence"
 RULE = ("one process per run under ThreadSanitizer: the real FsDropInService watcher thread, a thread running updateDropIns -> prerun -> runOnce "
-        "back to back on an engine of scripted plugins, and a thread performing a seeded sequence of 60 (quick) / 150 (thorough) file operations in "
+        "back to back on an engine of scripted plugins, and a thread performing a seeded sequence of 80 (quick) / 150 (thorough) file operations in "
         "the drop-in directory: create, rewrite in one shot and in chunks (partial JSON on disk in between), rename in / out / within, delete, "
         "dot-files, syntactically invalid JSON, JSON that parses but is refused (unknown target ruleset, part the base did not open, bad "
         "numeric field), removing and re-creating the directory. Every valid content carries a unique id as a plugin argument, so a tick's "
@@ -118,8 +118,8 @@ def cases(seed, tier):
     quick = tier != "thorough"
     rng = random.Random(seed * 1000003 + 14)
     scns, metas = [], []
-    for i in range(20 if quick else 300):
-        s, m = gen(rng, "C14-%d-%d" % (seed, i), 60 if quick else 150)
+    for i in range(40 if quick else 300):
+        s, m = gen(rng, "C14-%d-%d" % (seed, i), 80 if quick else 150)
         scns.append(s)
         metas.append(m)
     yield core.Case("C14-batch", scns, {"metas": metas}, driver="watch", flavor="tsan")
